@@ -866,6 +866,11 @@ def generate():
     # the source of the imported beanquery.types (types.function_lookup, _bases); see harness/vf/src_compiler.py
     from . import gen_src
     info.update(gen_src.generate('lookup'))
+    # bld-compiler4: the expression-level typing path (Compiler._unaryop / _between / _inop / _binaryop / _function) ->
+    # coq/Gen/SrcExprs.v; the C04_source_unaryop .. C04_source_binaryop_terminates theorems are stated over it
+    info.update(gen_src.generate('exprs'))
+    from . import src_exprs
+    info['src_exprs_unrolling'] = dict(src_exprs.ExprGroup.info)
     return info
 
 
